@@ -13,6 +13,7 @@
 #include "nmtools/array/ndarray/hybrid.hpp"
 
 #include "nmtools/assert.hpp"
+#include "nmtools/utility/unwrap.hpp"
 
 namespace nmtools::index
 {
@@ -44,6 +45,26 @@ namespace nmtools::index
             , "unsupported shape_repeat, maybe specialization of resolve_optype_t<shape_repeat_t,...> required"
         );
         auto ret = return_t {};
+
+        // an axis that is only known at run time is validated at run time:
+        // an axis outside [-dim,dim), or a repeats array that does not match the extent, yields Nothing
+        constexpr auto runtime_validity = !meta::is_constant_index_array_v<return_t>
+            && meta::is_index_v<axis_t> && !meta::is_constant_index_v<axis_t>;
+        using result_t [[maybe_unused]] = nmtools_maybe<return_t>;
+
+        if constexpr (runtime_validity) {
+            const auto dim = static_cast<nm_index_t>(len(shape));
+            const auto a   = static_cast<nm_index_t>(axis);
+            if ((a < -dim) || (a >= dim)) {
+                return result_t{meta::Nothing};
+            }
+            if constexpr (meta::is_index_array_v<meta::remove_address_space_t<repeats_t>>) {
+                // numpy: ValueError: operands could not be broadcast together with shape
+                if (static_cast<nm_size_t>(at(shape,axis)) != static_cast<nm_size_t>(len(repeats))) {
+                    return result_t{meta::Nothing};
+                }
+            }
+        }
 
         if constexpr (!meta::is_constant_index_array_v<return_t>) {
             // when axis is None, repeat the flattened array
@@ -95,7 +116,11 @@ namespace nmtools::index
             }
         }
 
-        return ret;
+        if constexpr (runtime_validity) {
+            return result_t{ret};
+        } else {
+            return ret;
+        }
     } // repeat
 } // namespace nmtools::index
 
@@ -127,7 +152,10 @@ namespace nmtools::meta
                 constexpr auto shape   = to_value_v<shape_t>;
                 constexpr auto repeats = to_value_v<repeats_t>;
                 constexpr auto axis    = to_value_v<axis_t>;
-                constexpr auto result  = index::shape_repeat(shape,repeats,axis);
+                // the values here are the BOUNDS of clipped shapes / repeats, not run-time extents: the axis is passed
+                // as its constant type so that no run-time validation (which compares extents) is attempted
+                [[maybe_unused]] constexpr auto axis_v = axis;
+                constexpr auto result  = index::shape_repeat(shape,repeats,axis_t{});
                 using nmtools::at;
                 return template_reduce<nmtools::len(result)>([&](auto init, auto index){
                     using init_type = type_t<decltype(init)>;
